@@ -15,6 +15,7 @@ fn snapshot_item<V>(item: &Item<V>) -> Value {
             "regex": node.regex.regex,
             "ignore_case": node.regex.ignore_case,
             "compiled": node.regex.compiled.is_some(),
+            "compiled_regex": node.regex.compiled.as_ref().map(|r| r.as_str().to_string()),
             "children": node.children.iter().map(snapshot_item).collect::<Vec<Value>>(),
         }),
         Item::Leaf(leaf) => {
@@ -27,6 +28,7 @@ fn snapshot_item<V>(item: &Item<V>) -> Value {
                 "regex": leaf.regex.regex,
                 "ignore_case": leaf.regex.ignore_case,
                 "compiled": leaf.regex.compiled.is_some(),
+                "compiled_regex": leaf.regex.compiled.as_ref().map(|r| r.as_str().to_string()),
                 "ids": ids,
             })
         }
